@@ -183,6 +183,12 @@ inline bool hasInnerEmpty(const Value& v, bool top = true) {
   for (const auto& k : v.items) if (hasInnerEmpty(k, false)) return true;
   return false;
 }
+// a set (possibly empty) somewhere inside a tuple
+inline bool hasSetInsideTuple(const Value& v, bool underTuple = false) {
+  if (v.isSet() && underTuple) return true;
+  for (const auto& k : v.items) if (hasSetInsideTuple(k, underTuple || v.isTuple())) return true;
+  return false;
+}
 inline size_t nodeCount(const Value& v) { size_t n = 1; for (const auto& k : v.items) n += nodeCount(k); return n; }
 
 // model-level typing judgment
